@@ -160,11 +160,12 @@ def explore_unit(hname, bodies, first, points, baseline, res, record):
         res["outcomes"].add(hash(observe(r)) & 0xFFFFFFFF)
         probs = judge(r, baseline)
         if probs:
-            # believe it only after two identical replays
-            r2, r3 = sched.forked(bodies, sch, first), sched.forked(bodies, sch, first)
-            res["replays"] += 2
-            if observe(r2) != observe(r) or observe(r3) != observe(r):
-                raise HarnessError(f"replay of schedule {sch} on {hname} diverged: nondeterminism not under control")
+            # believe it only after two identical replays (done for the first schedule of every signature)
+            if any(f"{hname}|{code}" not in res["viol"] for code, _ in probs):
+                r2, r3 = sched.forked(bodies, sch, first), sched.forked(bodies, sch, first)
+                res["replays"] += 2
+                if observe(r2) != observe(r) or observe(r3) != observe(r):
+                    raise HarnessError(f"replay of schedule {sch} on {hname} diverged: nondeterminism not under control")
             where = r["trace"][0][2] if r.get("trace") else "?"
             for code, msg in probs:
                 record(f"{hname}|{code}", hname, first, sch, where, msg)
